@@ -109,6 +109,9 @@ func (g *TokenGenerator) DecodeToken(encrypted []byte) (*Token, error) {
 		encodedRemoteAddr: t.RemoteAddr,
 	}
 	if t.IsRetryToken {
+		if len(t.OriginalDestConnectionID) > protocol.MaxConnIDLen || len(t.RetrySrcConnectionID) > protocol.MaxConnIDLen {
+			return nil, protocol.ErrInvalidConnectionIDLen
+		}
 		token.OriginalDestConnectionID = protocol.ParseConnectionID(t.OriginalDestConnectionID)
 		token.RetrySrcConnectionID = protocol.ParseConnectionID(t.RetrySrcConnectionID)
 	} else {
